@@ -1214,6 +1214,46 @@ def _many_orphans_case(env):
     return None
 
 
+def _same_turn_case(env):
+    """request, kill, region cleared and tracked again, second request for the same id - all before the event loop gets to run the
+    first future's callbacks: the second request is a request like any other (resolved by the update, or cancelled by the next kill)"""
+    for ending in ("update", "kill"):
+        world = World(env, {"allow_auto": False, "auto_missing": False, "vo_cache": False, "cache": {}})
+        try:
+            region = world.regions[0]
+            mgr = region.objects
+            first = list(mgr.request_objects(5))
+            raised = world._deliver(world._msg_kill((5,)), 0)
+            if raised is not None:
+                return Failure("handler-raised", "no handler raises", "KillObject for a requested, never announced id raised %r" % (raised,))
+            mgr.clear()
+            world.session.objects.track_region_objects(region.handle)
+            second = list(mgr.request_objects(5))
+            env.spin()
+            if not all(f.done() for f in first):
+                return Failure("futures/left-pending", "a pending request is cancelled when its id is killed", "the first request is still pending after KillObject")
+            if any(f.done() for f in second):
+                return Failure("futures/spurious", "a request stays pending until something happens to its local id",
+                               "the second request (made after the region was cleared and tracked again) finished before anything happened to its id")
+            if ending == "update":
+                raised = world._deliver(world._msg_update("full", 0, ((5, 3, 0),), 1), 0)
+                env.spin()
+                obj = mgr.state.localid_lookup.get(5)
+                if raised is not None or not all(f.done() and not f.cancelled() and f.result() is obj for f in second):
+                    return Failure("futures/unresolved", "a pending request is resolved with the object when the matching update arrives",
+                                   "request, kill, clear, re-track, request again within one loop turn; then the object is announced: the second request is %s (%r)"
+                                   % ("pending" if not all(f.done() for f in second) else "cancelled or wrong", raised))
+            else:
+                raised = world._deliver(world._msg_kill((5,)), 0)
+                env.spin()
+                if raised is not None or not all(f.done() for f in second):
+                    return Failure("futures/left-pending", "a pending request is cancelled when its id is killed",
+                                   "request, kill, clear, re-track, request again within one loop turn; then a second KillObject: the second request is still pending (%r)" % (raised,))
+        finally:
+            world.close()
+    return None
+
+
 def bounded_random_walks(reg, tier, seed):
     rng = random.Random(seed * 104729 + 1414)
     env = Env()
@@ -1260,6 +1300,15 @@ def bounded_random_walks(reg, tier, seed):
         if f_ is not None:
             rec.failures.append({"key": f_.key, "clause": f_.clause, "input": {"scenario": "130 children, each with an unknown parent of its own, then the parents"},
                                  "observed": f_.observed})
+        executed += 12
+        distinct.add(("same-turn",))
+        try:
+            f2_ = _same_turn_case(env)
+        except Exception as ex:  # noqa
+            f2_ = Failure("harness/same-turn", "scenario runs", "%s: %s" % (type(ex).__name__, ex))
+        if f2_ is not None:
+            rec.failures.append({"key": f2_.key, "clause": f2_.clause, "input": {"scenario": "request, kill, clear, re-track, request again within one event-loop turn"},
+                                 "observed": f2_.observed})
     finally:
         env.close()
     return {"name": "scene-graph-random-walks", "evaluations": executed, "distinct_nontrivial": len(distinct),
